@@ -8,6 +8,11 @@ import StoneVerif.Model.Rt.Decode
 import StoneVerif.Model.Rt.Ir
 import StoneVerif.Model.Rt.Spec
 import StoneVerif.Model.Rt.WF
+import StoneVerif.Model.Rt.WFExtra
+import StoneVerif.Model.Rt.SpecC06
+import StoneVerif.Model.Rt.SpecC08
+import StoneVerif.Model.Rt.SpecC13
+import StoneVerif.Model.Rt.RoundTripSpec
 /-! Protocol handlers of the `rt.*` suites (C04–C08, C10, C13). -/
 open Lean
 namespace Driver.Rt
@@ -326,6 +331,14 @@ def handle (st : State) (op : String) (j : Json) : Except String (State × Json)
       | none => pure st.ext
     pure ({ env, ext }, Json.mkObj [("ok", true), ("structs", natTo env.structs.length), ("unions", natTo env.unions.length),
       ("envWF", envWF env),
+      -- every decidable environment hypothesis some theorem takes: `must` ones are asserted by the harness on
+      -- every accepted spec, `restrict` ones delimit a _partial theorem and are only counted
+      ("hyps", Json.mkObj [
+        ("envWF", envWF env), ("envWFX", envWFX env), ("attrFlagsOk", attrFlagsOk env),
+        ("fieldFlagsWF", fieldFlagsWF env), ("envRT", RoundTrip.envRT env),
+        ("dfltsReflB", RoundTrip.dfltsReflB (mkExt ext false) env && RoundTrip.dfltsReflB (mkExt ext true) env)]),
+      ("restrict", Json.mkObj [
+        ("noCatchAllTrees", noCatchAllTrees env), ("noDefaultedTrees", noDefaultedTrees env)]),
       ("notWF", Json.arr ((env.structs.filter (fun s => !s.wf env)).map (fun s => Json.str s.cls) ++
                           (env.unions.filter (fun u => !u.wf env)).map (fun u => Json.str u.cls)).toArray)])
   | "rt.vdump" =>
@@ -393,7 +406,15 @@ def handle (st : State) (op : String) (j : Json) : Except String (State × Json)
     let t ← tyOf (← jobj j "ty")
     let v ← pyValOf (← jobj j "v")
     pure (st, both st fun E => Json.mkObj [("ok", jsonTo (wire E st.env t v)),
-      ("valid", validB E st.env t v), ("normal", normalB st.env t v)])
+      ("valid", validB E st.env t v), ("normal", normalB st.env t v),
+      ("valWF", RoundTrip.valWF E st.env t v), ("ambiguousEmpty", RoundTrip.ambiguousEmpty st.env t v), ("tyWF", tyWF st.env t),
+      ("canon", pyValTo (RoundTrip.canon st.env t v))])
+  | "rt.sat" =>
+    -- C08's specification-level predicates on concrete data
+    let t ← tyOf (← jobj j "ty")
+    let v ← pyValOf (← jobj j "v")
+    pure (st, both st fun E => Json.mkObj [("sat", satB E st.env t v), ("norm", pyValTo (normOf E t v)),
+      ("typeOnly", typeOnlyB st.env t v), ("member", memberSat E st.env t v)])
   | "rt.dec" =>
     let t ← tyOf (← jobj j "ty")
     let d ← jsonOf (← jobj j "doc")
